@@ -26,6 +26,7 @@ Record cov_entry := {
   ce_minorder : Z;           (* getMinOrder: minimum IRF order (-1 = stationary) *)
   ce_hasparam : bool;
   ce_parmax : parmax;
+  ce_parmin_dim : bool;      (* getParMin = max(0, (ndim - 2)/2): lower bound of the parameter growing with the dimension *)
   ce_scadef : scadef_kind;
   ce_hasrange : Z;           (* 1 yes / 0 no / -1 "from sill" *)
   ce_spaceR : bool;          (* getCompatibleSpaceR *)
